@@ -202,6 +202,23 @@ class Run:
 
     # ---- outcomes
     def violation(self, replay: Dict[str, Any], suffix: str = "") -> None:
+        # "a valid schema must compile": whether the GENERATED schema was valid is decided by the reference of the documented
+        # rules (Lean, text level), not by the generator's intentions.  A schema the reference rejects as well is a
+        # generator artefact: counted, sampled into the evidence, never a verdict.
+        if replay.get("kind") == "compile-failed" and getattr(self, "drv", None) is not None:
+            files = (replay.get("input") or {}).get("files") or {}
+            try:
+                verdicts = [self.drv.batch([{"op": "text.check", "files": [{"name": n, "text": t}], "main": n}])[0] for n, t in files.items()
+                            if isinstance(t, str) and "\nimport " not in t]
+            except Exception:  # noqa: BLE001
+                verdicts = []
+            if verdicts and any("diag" in v for v in verdicts):
+                self.count("generated-schema-rejected-by-the-reference-too(skipped)")
+                self.notes.setdefault("generator_artefacts", [])
+                if len(self.notes["generator_artefacts"]) < 3:
+                    self.notes["generator_artefacts"].append({"observed_impl": str(replay.get("observed_impl"))[:300],
+                                                              "reference": [v.get("diag") for v in verdicts if "diag" in v][:2]})
+                return
         os.makedirs(REPLAY_DIR, exist_ok=True)
         self._nreplay += 1
         path = os.path.join(REPLAY_DIR, f"{self.pid}-{self.seed}-{self._nreplay}.json")
